@@ -281,7 +281,8 @@ class Select(MarkerRelation):
 
     def strip(self) -> tuple[Relation, bool]:
         """Remove the `Select` marker and any preceding `Projection` from a
-        relation if it has no other managed operations.
+        relation if it has no other managed operations and does not represent
+        a compound (UNION) query, which must remain a subquery.
 
         Returns
         -------
@@ -290,7 +291,7 @@ class Select(MarkerRelation):
         removed_projection : `bool`
             Whether a `Projection` operation was also stripped.
         """
-        if not self.has_deduplication and not self.has_sort and not self.has_slice:
+        if not self.has_deduplication and not self.has_sort and not self.has_slice and not self.is_compound:
             return self.skip_to, self.has_projection
         else:
             return self, False
